@@ -1071,6 +1071,7 @@ package lisp
 // grows (frame: writers(Runtime.numsym) = {gensym}) and the spelling is an
 // injective rendering of it (fmt, assumed).  They must also be distinct from
 // every symbol the program text can contain: the spelling must not be readable.
+//@ frame writers(Runtime.numsym) subset { (*Runtime).gensym } property C07
 //@ func (*Runtime).GenSym
 //@   requires r != nil
 //@   ensures  [the-spelling-cannot-be-written-in-source] !(('a' <= result[0] && result[0] <= 'z') || ('A' <= result[0] && result[0] <= 'Z'))
